@@ -221,6 +221,88 @@ class Controller:
             loop._vtime = max(loop._vtime, loop._scheduled[0]._when)
 
 
+class EnvController(Controller):
+    """Decisions: which enabled environment event happens next (at idle: any; while the loop is
+    busy: a deviation that costs one unit of the budget), and K5 answers of the fake sockets."""
+
+    def __init__(self, chooser, budget):
+        super().__init__(chooser, fine=False)
+        self.budget = budget
+        self.used = 0
+        self.model = None  # object with enabled() -> [(name, fn)]
+        self.world = None
+
+    def _fire(self, loop, name, fn):
+        self.world.ev("env", name)
+        loop.call_soon(fn)
+
+    def pre_handle(self, loop):
+        if self.passthrough or self.model is None or self.used >= self.budget:
+            return
+        evs = self.model.enabled()
+        if not evs:
+            return
+        c = self.chooser.choose(1 + len(evs), "K1")
+        if c:
+            self.used += 1
+            self._fire(loop, *evs[c - 1])
+
+    def idle(self, loop):
+        if self.passthrough or self.model is None:
+            return super().idle(loop)
+        evs = self.model.enabled()
+        acts = self._enabled_actions()
+        n = len(evs) + len(acts)
+        if n == 0:
+            if loop._scheduled:
+                loop._vtime = max(loop._vtime, loop._scheduled[0]._when)
+                return
+            raise Deadlock("no ready handle, no environment event enabled")
+        c = self.chooser.choose(n, "K3")
+        if c < len(evs):
+            self._fire(loop, *evs[c])
+        else:
+            self._inject(loop, acts[c - len(evs)])
+
+    def answer(self, kind, n):
+        """K5: how many bytes (1..n) a fake socket / pipe call moves; default = all (or what
+        the scenario's fixed chunk policy says)."""
+        default = n
+        if kind.startswith("tls_recv:"):
+            pol = kind.split(":", 1)[1]
+            if pol.isdigit():
+                default = min(n, int(pol))
+        if n <= 1 or self.used >= self.budget:
+            return default
+        if kind.startswith("tls_recv"):
+            opts = [default] + [x for x in (1, n // 2, n - 1) if 1 <= x < n and x != default]
+            opts = list(dict.fromkeys(opts))
+        else:
+            opts = [n, 1] + ([2] if n > 2 else [])
+        c = self.chooser.choose(len(opts), "K5")
+        if c:
+            self.used += 1
+        return opts[c]
+
+    cut_offsets = None  # None: cuts disabled; "sparse" or "all"
+    cut_used = False
+
+    def cut(self, side, record_index, length):
+        """K5: cut the connection inside this TLS record?  At most one cut per execution."""
+        if self.cut_offsets is None or self.cut_used:
+            return None
+        if self.cut_offsets == "all":
+            offs = list(range(length))
+        else:
+            offs = sorted({0, 1, 4, 5, 6, length // 2, length - 1} & set(range(length)))
+        c = self.chooser.choose(1 + len(offs), "K5cut", 1)
+        if c == 0:
+            return None
+        self.cut_used = True
+        return offs[c - 1]
+
+
+
 class VLoop(asyncio.BaseEventLoop):
     def __init__(self, ctl: Controller | None = None):
         super().__init__()
@@ -235,6 +317,8 @@ class VLoop(asyncio.BaseEventLoop):
         self.main_done_hook = None
         self.set_exception_handler(VLoop._collect_exc)
         self._wake = threading.Event()
+        self._readers = {}
+        self._writers = {}
 
     # -- environment -------------------------------------------------------------------
     def time(self):
@@ -249,6 +333,19 @@ class VLoop(asyncio.BaseEventLoop):
     @staticmethod
     def _collect_exc(loop, context):
         loop.exc_contexts.append(context)
+
+    # fake file descriptors (engine E): the environment model fires these callbacks
+    def add_reader(self, fd, callback, *args):
+        self._readers[fd] = (callback, args)
+
+    def remove_reader(self, fd):
+        return self._readers.pop(fd, None) is not None
+
+    def add_writer(self, fd, callback, *args):
+        self._writers[fd] = (callback, args)
+
+    def remove_writer(self, fd):
+        return self._writers.pop(fd, None) is not None
 
     def _call_soon(self, callback, args, context):
         if self._in_handle and self.ctl.fine:
